@@ -12,7 +12,7 @@ LEVEL_NOTE = (
 
 def judge(res, o, lean):
     cfg = o["cfg"]
-    if o["status"] != "spec":
+    if lean is None or "line" not in o:
         return
     chk, msh, _status, _model = speccheck.parse_lean(lean)
     if not chk:
@@ -38,6 +38,6 @@ def search(tier, seed):
 def replay(case):
     r = common.Result("C02")
     o = speccheck.worker((case["input"], 6))
-    lean = common.run_driver("Spec", o["line"] + "\n")[0] if o["status"] == "spec" else None
+    lean = common.run_driver("Spec", o["line"] + "\n")[0] if "line" in o and "genuine" in o else None
     judge(r, o, lean)
     return r.failures[0] if r.failures else None
